@@ -271,6 +271,8 @@ def evaluate_kani(kb, sel, res, rep, pid, log, root):
                 t = by_clause.get(c, {})
                 path = replay_mod.record(pid, u, c, t, cex, r, kb.dst)
                 rep.violations.append({"obligation": obl, "path": path["path"], "confirmed": path.get("confirmed")})
+    if kb.fallback:
+        rep.notes.append("z3 timed out after 240 s on " + ", ".join(kb.fallback) + "; decided by CaDiCaL with --arrays-uf-always instead")
     rep.extra["clause_text"] = ctext
     rep.extra["annotation_diff_sha256"] = hashlib.sha256(kb.diff.encode()).hexdigest()
     rep.extra["annotation_diff_added_lines"] = sum(1 for l in kb.diff.split("\n") if l.startswith("+") and not l.startswith("+++"))
